@@ -14,8 +14,10 @@ namespace KotoVerif.Try
 
 /-- Type names as `koto.type` reports them (also the type hints of `catch e: T`). -/
 inductive Ty where
-  | null | bool | number | string | list
+  | null | bool | number | string | list | map
   | obj (c : Nat)
+  /-- not a type: the map pattern `{k… as v…}` of a catch argument, by its key atoms -/
+  | keys (ks : List Nat)
   deriving DecidableEq, Repr, Inhabited
 
 /-- Binary operators of the mini language. `ge` on an object without `@>=` is derived by the
@@ -50,6 +52,7 @@ inductive Val where
   | int (i : Int)
   | str (s : Str)
   | list (r : Nat)          -- reference into the heap
+  | mp (fs : List (Nat × Int))    -- an immutable map literal `{k<a>: i, …}` (key atoms → ints)
   | obj (c : Nat)           -- object of class `c` (`@type: 'K<c>'`, `@display: 'k<c>'`)
   deriving DecidableEq, Repr, Inhabited
 
@@ -59,7 +62,22 @@ def Val.ty : Val → Ty
   | .int _ => .number
   | .str _ => .string
   | .list _ => .list
+  | .mp _ => .map
   | .obj c => .obj c
+
+def recGet (fs : List (Nat × Int)) (k : Nat) : Option Int :=
+  (fs.find? (fun f => f.1 == k)).map (·.2)
+
+/-- Does a catch argument accept the value? No hint: always. A type hint: the value's type.
+A map pattern: the value is a map that has every key of the pattern (anything else, or a missing
+key, is "no match": the next catch block is tried; after the last one the error continues). -/
+def accepts : Option Ty → Val → Bool
+  | none, _ => true
+  | some (.keys ks), v =>
+    match v with
+    | .mp fs => ks.all (fun k => (recGet fs k).isSome)
+    | _ => false
+  | some t, v => decide (v.ty = t)
 
 /-- only `null` and `false` are falsy -/
 def Val.truthy : Val → Bool
